@@ -2,7 +2,9 @@
   CC.Drv.Threefish — line-protocol handler for
     `tf  <256|512|1024> <enc|dec> <keyhex> <t0> <t1> <blockhex>`   (unrolled shape, default build)
     `tfl <256|512|1024> <enc|dec> <keyhex> <t0> <t1> <blockhex>`   (loop shape, feature `no_unroll`)
-  and the round trips `encdec` = decrypt(encrypt b), `decenc` = encrypt(decrypt b) in place of `enc|dec`.
+  and the round trips `encdec` = decrypt(encrypt b), `decenc` = encrypt(decrypt b) in place of `enc|dec`;
+  suffixes `s` / `p` / `r` name the API path on the Rust side (block slice, par-blocks, `&Alg` forwarding) —
+  the model has one block function, so they are synonyms here.
 -/
 import CC.Drv.Common
 import CC.Threefish.Model
@@ -19,15 +21,15 @@ def run (sh : Shape) (size dir key t0 t1 blk : String) : String :=
   match paramsOfName size, bytesOfHex key, t0.toNat?, t1.toNat?, bytesOfHex blk with
   | some p, some k, some a, some b, some x =>
     if k.length = 8 * p.nw ∧ x.length = 8 * p.nw ∧ a < 2 ^ 64 ∧ b < 2 ^ 64 then
+      let E := encrypt sh p k (BitVec.ofNat 64 a) (BitVec.ofNat 64 b)
+      let D := decrypt sh p k (BitVec.ofNat 64 a) (BitVec.ofNat 64 b)
+      -- the slice (`s`), par-blocks (`p`) and `&Alg` (`r`) API paths and the `new` constructor are
+      -- wrappers: every one of them must compute the same block function as `enc` / `dec`
       match dir with
-      | "enc" => hexOfBytes (encrypt sh p k (BitVec.ofNat 64 a) (BitVec.ofNat 64 b) x)
-      | "dec" => hexOfBytes (decrypt sh p k (BitVec.ofNat 64 a) (BitVec.ofNat 64 b) x)
-      | "encdec" =>
-        hexOfBytes (decrypt sh p k (BitVec.ofNat 64 a) (BitVec.ofNat 64 b)
-          (encrypt sh p k (BitVec.ofNat 64 a) (BitVec.ofNat 64 b) x))
-      | "decenc" =>
-        hexOfBytes (encrypt sh p k (BitVec.ofNat 64 a) (BitVec.ofNat 64 b)
-          (decrypt sh p k (BitVec.ofNat 64 a) (BitVec.ofNat 64 b) x))
+      | "enc" | "encs" | "encp" | "encr" => hexOfBytes (E x)
+      | "dec" | "decs" | "decp" | "decr" => hexOfBytes (D x)
+      | "encdec" | "encsdecs" | "encdecs" | "encpdecp" | "encrdecr" => hexOfBytes (D (E x))
+      | "decenc" | "decsencs" | "decsenc" => hexOfBytes (E (D x))
       | _ => "bad-op"
     else "bad-op"
   | _, _, _, _, _ => "bad-op"
